@@ -174,11 +174,11 @@ class World(BaseWorld):
     def true_degree(self, p):
         return max((len(k) for k in p.t), default=-math.inf)
 
-    def check_book(self, s, where, exact=False):
+    def check_book(self, s, where, exact=False, force=False):
         """C14 bookkeeping invariants."""
         if not s.is_model:
             return
-        if not getattr(self, "observing", True) and not exact:
+        if not getattr(self, "observing", True) and not exact and not force:
             # reading variables / degree / mapping is itself an event (it could resynchronise a lazily maintained cache):
             # in sparse-observation runs the simulator only looks after the ops recorded with obs=true
             return
